@@ -199,6 +199,8 @@ CORE_OUTPUTS = [
     ("unsat\n(<7>)\n", ["7"]),
     ("unsat\n( <7>  <8> )\n", ["7", "8"]),
     ("unsat\n()\n", []),
+    ("unsat\n(<1> <2> <3>\n <4> <5>\n <6>)\n", ["1", "2", "3", "4", "5", "6"]),
+    ("unsat\n(<10>\n<11>\n)\n", ["10", "11"]),
     ("unsat\n", None),
     ("unsat\n(error \"line 3 column 10: unsat core is not available\")\n", None),
     ("unsat\n(a!1 a!2)\n", None),
